@@ -212,7 +212,7 @@ char_t* tokenize_xchars (hawk_rtx_t* rtx, const char_t* s, hawk_oow_t len, const
 				c = to_xch_upper(*p);
 				for (d = delim; d < delim_end; d++)
 				{
-					if (c == to_xch_upper(*d)) goto exit_loop;
+					if (c == (char_t)to_xch_upper(*d)) goto exit_loop;
 				}
 
 				if (sp == HAWK_NULL) sp = p;
@@ -252,7 +252,7 @@ char_t* tokenize_xchars (hawk_rtx_t* rtx, const char_t* s, hawk_oow_t len, const
 				}
 				for (d = delim; d < delim_end; d++)
 				{
-					if (c == to_xch_upper(*d)) goto exit_loop;
+					if (c == (char_t)to_xch_upper(*d)) goto exit_loop;
 				}
 				if (sp == HAWK_NULL) sp = p;
 				ep = p++;
